@@ -18,11 +18,12 @@ inductive Ev where
   | call (f : Nat)
   | rd (x : Nat) | wr (x : Nat)
   | open | close | ret | label
+  | neg   -- precedes the `open` of an `if` body whose condition is a negation `!c` (polarity of the test)
   deriving DecidableEq, Repr, Inhabited
 
 /-- synchronisation skeleton: everything but tracked reads/writes and pure block structure -/
 def Ev.isSync : Ev → Bool
-  | .rd _ | .wr _ | .open | .close | .ret | .label => false
+  | .rd _ | .wr _ | .open | .close | .ret | .label | .neg => false
   | _ => true
 
 def skeleton (l : List Ev) : List Ev := l.filter Ev.isSync
